@@ -112,20 +112,21 @@ def run_case(ctx, name, params):
             idx_of[wi.id] = len(scripts_all)
             scripts_all.append(w_)
             warm.append(wi)
+        ajw = hooks.ActiveJobs()
         try:
-            alg.evaluate(warm)
-        except BaseException:
-            pass
-        # workers of an aborted warm-up batch may still be parked at a gate or inside the objective: let them drain
-        import time as _t
-        t_end = _t.time() + 3.0
-        while _t.time() < t_end:
-            busy = any(c.result is None and c.exc is None for c in list(p.calls)) or (S is not None and S.parked)
-            if not busy:
-                _t.sleep(0.01)
-                if not (any(c.result is None and c.exc is None for c in list(p.calls)) or (S is not None and S.parked)):
-                    break
-            _t.sleep(0.002)
+            try:
+                alg.evaluate(warm)
+            except BaseException:
+                pass
+            # workers of an aborted warm-up batch may still be parked at a gate or inside the objective: let them finish
+            okw = ajw.wait_idle(90.0)
+        finally:
+            ajw.restore()
+        if not okw:
+            ctx.count("cases_abandoned_workers_still_running")
+            if S is not None:
+                S.shutdown()
+            return
         ctx.count("warmup_batches")
         del p.failed[:]
         del p.calls[:]
@@ -136,6 +137,7 @@ def run_case(ctx, name, params):
         batch.append(ind)
     start_vecs = [list(b.vector) for b in batch]
     caught = None
+    aj = hooks.ActiveJobs()
     try:
         alg.evaluate(batch)
     except BaseException as e:
@@ -151,6 +153,11 @@ def run_case(ctx, name, params):
             _t.sleep(0.005)
             ctx.count("threaded_executions")
             ctx.count("scheduler_grants", S.grants)
+        drained_ = aj.wait_idle(90.0)     # no worker of this batch may still be running when the case is judged (or the next one starts)
+        aj.restore()
+    if not drained_:
+        ctx.count("cases_abandoned_workers_still_running")
+        return
     ctx.count("executions")
     if any(scripts):
         ctx.nontrivial((tuple(scripts), procs, n))
